@@ -17,7 +17,7 @@ from pytreenet.util.tensor_splitting import SplitMode, SVDParameters  # noqa: E4
 
 MODES = {"reduced": SplitMode.REDUCED, "full": SplitMode.FULL, "keep": SplitMode.KEEP}
 COQ_MODE = {"reduced": "Reduced", "full": "Full", "keep": "Keep"}
-IMPORTS = "From Coq Require Import List Arith. From PTN Require Import TTN.Store. Import ListNotations."
+IMPORTS = "From Coq Require Import List Arith. From PTN Require Import TTN.Store TTN.Canon. Import ListNotations."
 
 
 class IdMap:
@@ -47,7 +47,7 @@ def snapshot(ttn):
 
 
 class Driver:
-    def __init__(self, ttn_cls=TreeTensorNetwork, nprs=None, ints=None, complex_=True):
+    def __init__(self, ttn_cls=TreeTensorNetwork, nprs=None, ints=None, complex_=True, lowrank=0.0):
         self.ttn = ttn_cls()
         self.atoms = []          # atom index -> ndarray (raw value at creation)
         self.nprs = nprs or np.random.RandomState(0)
@@ -56,8 +56,17 @@ class Driver:
         self.exact = ints is not None    # until the first kernel call
         self.log = []            # (op, ok)
         self.kernel_defects = []
+        self.lowrank = lowrank
 
     def _rand(self, shape):
+        if self.lowrank and len(shape) >= 2 and self.nprs.rand() < self.lowrank:
+            lr, self.lowrank = self.lowrank, 0.0
+            vs = [self._rand((d,)) for d in shape]
+            self.lowrank = lr
+            x = vs[0]
+            for y in vs[1:]:
+                x = np.multiply.outer(x, y)
+            return x
         if self.ints is not None:
             t = self.nprs.randint(-self.ints, self.ints + 1, size=shape).astype(float)
             if self.complex:
@@ -73,9 +82,25 @@ class Driver:
         return LegSpecification(d["parent"], list(d["children"]), list(d["open"]), node=None, is_root=bool(d["root"]))
 
     def apply(self, op):
-        """execute one op on the real network; on an exception the network is restored"""
+        """execute one op on the real network; on an exception the network is restored.
+        Kernel factors (QR / SVD / explicit replacement) are recorded as atoms, in call order,
+        by wrapping the splitting functions in the namespace of pytreenet.core.ttn."""
+        import pytreenet.core.ttn as ttn_mod
         backup = copy.deepcopy(self.ttn)
         natoms = len(self.atoms)
+        names = ["tensor_qr_decomposition", "contr_truncated_svd_splitting", "idiots_splitting"]
+        orig = {nm: getattr(ttn_mod, nm) for nm in names}
+
+        def wrap(f):
+            def g(*a, **kw):
+                q, r = f(*a, **kw)
+                self.atoms.append(np.array(q))
+                self.atoms.append(np.array(r))
+                self.exact = False
+                return q, r
+            return g
+        for nm in names:
+            setattr(ttn_mod, nm, wrap(orig[nm]))
         try:
             self._apply(op)
             ok = True
@@ -85,6 +110,9 @@ class Driver:
             del self.atoms[natoms:]
             ok = False
             err = f"{type(e).__name__}: {e}"
+        finally:
+            for nm in names:
+                setattr(ttn_mod, nm, orig[nm])
         self.log.append((op, ok))
         return ok, err
 
@@ -143,13 +171,6 @@ class Driver:
                 oid2 = oid if oid is not None else "out_of_" + n
                 iid2 = iid if iid is not None else "in_of_" + n
                 t.split_node_replace(n, ta, tb, oid2, iid2, self._spec(o), self._spec(i))
-            self.exact = False
-            oid2 = oid if oid is not None else "out_of_" + n
-            iid2 = iid if iid is not None else "in_of_" + n
-            q = np.array(raw_tensor(t, oid2))
-            r = np.array(raw_tensor(t, iid2))
-            self.atoms.append(q)
-            self.atoms.append(r)
         elif k == "insert_identity":
             _, c, p, new = op
             t.insert_identity(c, p, new_identifier=new)
@@ -163,6 +184,10 @@ class Driver:
             t.replace_tensor(n, np.array(cur.transpose(q), order="C", copy=True), permutation=p)
         elif k == "access":
             _ = t.tensors[op[1]]
+        elif k == "canon":
+            t.canonical_form(op[1], mode=MODES[op[2]])
+        elif k == "move":
+            t.move_orthogonalization_center(op[1], mode=MODES[op[2]])
         else:
             raise ValueError(k)
 
@@ -211,6 +236,20 @@ def coq_op(op, idm):
     if k == "access":
         return f"Access {coq_nat(idm(op[1]))}"
     raise ValueError(k)
+
+
+def coq_cop(op, idm):
+    if op[0] == "canon":
+        return f"Canon {coq_nat(idm(op[1]))} {COQ_MODE[op[2]]}"
+    if op[0] == "move":
+        return f"Move {coq_nat(idm(op[1]))} {COQ_MODE[op[2]]}"
+    return "Base (" + coq_op(op, idm) + ")"
+
+
+def coq_crun_obs(ops, idm):
+    body = coq_list([("(" + coq_cop(o, idm) + ")") for o in ops])
+    rid = len(idm.r) + 1000      # temporary identifier of the R factor (a uuid in the code)
+    return f"crun_obs {coq_nat(rid)} (empty_store, None) {body}"
 
 
 def coq_run_obs(ops, idm):
